@@ -72,7 +72,7 @@ def init(v, nl, nc, nh, nw):
     s.C = nl if v[0] else 0
     s.pre_count = s.want = s.acks = s.received = 0
     s.comp = KNONE
-    s.ls = [[LTOP, False, False, 0] for _ in range(nl)]   # pc, slot, woken, queue
+    s.ls = [[LTOP, False, False, 0, False] for _ in range(nl)]   # pc, slot, woken, queue, in_poll (generator only, see lucky)
     s.cs = []
     s.callers = [SNEW] * nc
     s.hooks = [HNEW] * nh
@@ -119,7 +119,9 @@ def step(v, s0, lb):
             l[3] -= 1
             l[1] = False
             l[0] = LGOT
+            l[4] = False
             return s
+        l[4] = False
         if pc == LTOP:
             l[0] = LSHUT if s.S else LFLAG
         elif pc == LFLAG:
@@ -134,6 +136,7 @@ def step(v, s0, lb):
             if not (l[2] or l[3] != 0):
                 return None
             l[0], l[2] = LTOP, False
+            l[4] = True     # the woken task is inside the poll_fn of the shutdown branch: select! has chosen already
         elif pc == LGOT:
             if fixA2:
                 s.C += 1
@@ -257,8 +260,15 @@ def lucky(s, lb):
         return s.S
     if k == L_STEP:
         l = s.ls[i]
-        return l[3] > 0 and l[0] in (LTOP, LPARKED)
+        return l[3] > 0 and (l[0] == LPARKED or (l[0] == LTOP and not l[4]))
     return False
+
+
+def hopeless(s, lb):
+    """a step of the model that the real code cannot take from where it stands: after a wake-up the accept future is
+    already inside the poll_fn of the shutdown branch (LTop in the model), it will read the flag before it polls accept()"""
+    k, i = lb
+    return k == L_TAKE and s.S and s.ls[i][0] == LTOP and s.ls[i][4]
 
 
 def random_schedule(rng, v, nl, nc, nh, nw, max_conns, max_len, prefix=()):
@@ -272,13 +282,15 @@ def random_schedule(rng, v, nl, nc, nh, nw, max_conns, max_len, prefix=()):
             break
         if lb[0] == E_CONN:
             env += 1
+        if lucky(s, lb):
+            luck += 1
         s = t
         sched.append(lb)
     bias = rng.choice(["uniform", "listener-first", "caller-first", "conn-first"])
     while len(sched) < max_len:
         cand = []
         for lb in labels(s, max_conns - env):
-            if lucky(s, lb) and luck >= 1:
+            if (lucky(s, lb) and luck >= 1) or hopeless(s, lb):
                 continue
             t = step(v, s, lb)
             if t is not None:
@@ -317,7 +329,7 @@ def bfs_paths(v, nl, nc, nh, nw, max_conns, depth, cap):
         for s, path, env, luck in frontier:
             for lb in labels(s, max_conns - env):
                 lk = lucky(s, lb)
-                if lk and luck >= 1:
+                if (lk and luck >= 1) or hopeless(s, lb):
                     continue
                 t = step(v, s, lb)
                 if t is None:
